@@ -3,7 +3,7 @@ Spec: spec/Hexcone.tla (exact integer hexcone model; MC_Hexcone proves containme
 lattice), spec/trace/TraceGamut.tla (containment, bound preservation and round trip judged on recorded conversions
 with named tolerances). The harness converts the cylinder lattice of the seven spaces to sRGB and the RGB lattice into
 the seven spaces and back, f32 and f64."""
-import json, random
+import json, itertools, random
 from common import *
 from colours import *
 
@@ -37,6 +37,14 @@ def gen(ctx, path):
     pts += [tuple(rnd.random() for _ in range(3)) for _ in range(300 if ctx.quick else 6000)]
     # faces, edges, near-boundary
     pts += [tuple(rnd.choice([0.0, 1.0, 1e-9, 1 - 1e-9, rnd.random()]) for _ in range(3)) for _ in range(300 if ctx.quick else 4000)]
+    # one and two units in the last place (f32 and f64) inside the faces of the cube: sums and differences that round
+    # to 2, 1 or 0 (the divisor 2 - (max + min) of the HSL saturation, max - min of the hue)
+    near = []
+    for u in (2.0 ** -24, 2.0 ** -23, 2.0 ** -53, 2.0 ** -52):
+        for combo in itertools.product((1.0, 1.0 - u), repeat=3):
+            near.append(combo)
+        near += [(1.0, 1.0 - u, 0.5), (0.5, 1.0, 1.0 - u), (1.0 - u, 0.5, 0.5 - u), (u, 0.0, 0.0), (u, u, 0.0), (0.5, 0.5 + u, 0.5), (0.5, 0.5, 0.5 - u)]
+    pts += near
     for p in pts:
         for S in CYL:
             c.add(**{"from": "srgb", "in": p, "path": [S, "srgb"], "mode": "u", "tag": "rev"})
